@@ -53,10 +53,16 @@ def run(chk, tier):
     chk.rule("R-UAF", "no use of a pointer after it was released: may-dataflow on released lvalues (free, hwloc_bitmap_free, hwloc_free_unlinked_object, closedir, ...), killed by re-assignment, with a correlated-condition path search and whole-program constant fields to discard infeasible paths")
     nua = uaf.run(chk, P, units=('topology-xml.c', 'topology-xml-nolibxml.c', 'topology-xml-libxml.c', 'diff.c'))
     chk.floor("R-UAF", "release sites examined", nua, 40)
+    chk.rule("R-LEAK", "a local allocation is released, stored or handed over on every path to a return: may-dataflow on owning locals; a call ends ownership only if the callee's effect summary "
+             "frees the object or stores/returns the pointer (unknown callees conservatively); infeasible paths discarded with correlated conditions")
+    import leak, effects
+    nlk = leak.run(chk, P, effects.Effects(P), units=("topology-xml.c", "topology-xml-nolibxml.c", "topology-xml-libxml.c", "diff.c"))
+    chk.floor("R-LEAK", "allocation sites examined in the XML/diff code", nlk, 20)
     chk.rule("R-LINKFREE", "an object handed to an insertion function (which links, merges-and-frees or frees it) is never released afterwards by its creator: no feasible path from an insertion of x to hwloc_free_unlinked_object(x) (may-dataflow + correlated-condition path search)")
     nlf = linkfree.run(chk, P, units=("topology-xml.c",))
     chk.floor("R-LINKFREE", "release sites in the XML import code", nlf, 2)
-    chk.decided += ['the XML import/diff code never uses a pointer after releasing it (failure paths included)',
+    chk.decided += ["no local allocation of the XML import/diff code is dropped on a path to a return (leak on rarely taken branches, e.g. under NO_CPUKINDS)",
+                    'the XML import/diff code never uses a pointer after releasing it (failure paths included)',
                     "a failed hwloc_topology_load() does not leave the topology in the LOADING state (it can be configured and loaded again)",
                     "assertions on scalar parameters of functions called by the XML import cannot fail on values taken from the file (memattr ids)",
                     "enum-typed object attributes read from XML hold an enumerator (cache type, bridge upstream/downstream type): consumers that assert on them cannot abort",
